@@ -1,5 +1,5 @@
 (* Properties/C03.v — Acknowledged writes survive a crash at any instant and restart. *)
-From Verif Require Import Base.Prelude Store.Spec Store.Partition Wal.Model Replica.Glue Replica.GlueProofs Codec.Model Codec.Proofs Generated.Facts.
+From Verif Require Import Base.Prelude Store.Spec Store.Partition Wal.Model Replica.Glue Replica.GlueProofs Replica.Run Codec.Model Codec.Proofs Generated.Facts.
 From Verif Require Properties.C05.
 Open Scope N_scope.
 
@@ -14,6 +14,38 @@ Proof. repeat split; reflexivity. Qed.
 Theorem C03_persist_before_ack : forall d rd leader e dur,
   In (e, dur) (t_applied (exec d (iteration C05.order_now leader rd))) -> dur = saved d rd.
 Proof. exact applied_after_save. Qed.
+
+(* (1b) over whole runs and every crash instant: for every well-formed store, every run of Readys that honours the raft
+   library's contract (Replica/Run.v ready_ok) and every prefix [p] of the effects of the whole run - a crash between
+   two sends, before or after a durable write, between two applies, before or after Advance - every entry applied so far
+   (applying is what releases the caller) sits in the durable log at its index, above the snapshot and at or below the
+   durable commit index; (2) and (3) below then put it inside what a restart replays *)
+Theorem C03_acked_durable_at_every_crash : forall rds d p r, wfm d -> run_ok d rds -> run_effects rds = p ++ r ->
+  let t := exec d p in
+  wfm (t_durable t) /\ forall e dur, In (e, dur) (t_applied t) -> durable_has (t_durable t) e.
+Proof. exact acked_durable_at_every_crash. Qed.
+(* the premises are satisfiable: a fresh store, a Ready that appends two entries, a Ready that commits and delivers them;
+   crash after the first apply of the second iteration *)
+Definition ex_e1 : entry := {| e_term := 1; e_index := 1; e_data := 11; e_size := 4 |}.
+Definition ex_e2 : entry := {| e_term := 1; e_index := 2; e_data := 12; e_size := 4 |}.
+Definition ex_rd1 : ready := {| rd_hard := {| h_term := 1; h_vote := 1; h_commit := 0 |}; rd_ents := [ex_e1; ex_e2]; rd_snap := empty_snap; rd_committed := []; rd_msgs := [7] |}.
+Definition ex_rd2 : ready := {| rd_hard := {| h_term := 1; h_vote := 1; h_commit := 2 |}; rd_ents := []; rd_snap := empty_snap; rd_committed := [ex_e1; ex_e2]; rd_msgs := [8] |}.
+Example C03_run_nonvacuous :
+  wfm mem_new /\ run_ok mem_new [(true, ex_rd1); (false, ex_rd2)] /\
+  (exists p r, run_effects [(true, ex_rd1); (false, ex_rd2)] = p ++ r /\ map fst (t_applied (exec mem_new p)) = [ex_e1] /\ r <> []).
+Proof.
+  assert (C2 : forall l o, length l = 2%nat -> e_index (nth 0 l dent) = o -> e_index (nth 1 l dent) = o + 1 -> contiguous l o).
+  { intros l o L H0 H1 k Hk. rewrite L in Hk. destruct k as [|[|k]]; [rewrite H0|rewrite H1|]; lia. }
+  split; [|split].
+  - constructor; [discriminate| |vm_compute; discriminate]. intros k Hk. simpl in Hk. destruct k; [reflexivity|lia].
+  - constructor; [|constructor; [|constructor]].
+    + constructor; [reflexivity| |right; vm_compute; discriminate|intros e []].
+      cbn [rd_ents ex_rd1]. split; [vm_compute; reflexivity|]. split; [vm_compute; discriminate|]. apply C2; reflexivity.
+    + constructor; [reflexivity|exact I|right; vm_compute; discriminate|].
+      intros e [<-|[<-|[]]]; (split; [vm_compute; reflexivity|split; [vm_compute; discriminate|split; [vm_compute; lia|vm_compute; reflexivity]]]).
+  - exists (firstn 5 (run_effects [(true, ex_rd1); (false, ex_rd2)])), (skipn 5 (run_effects [(true, ex_rd1); (false, ex_rd2)])).
+    split; [symmetry; apply firstn_skipn|]. split; [vm_compute; reflexivity|vm_compute; discriminate].
+Qed.
 
 (* (2) recovery is exact: whatever the crash instant, when the durable state is consistent with the committed history
    (snapshot = contents after its index, log suffix = the rest), restart yields the contents of the committed history up
@@ -41,5 +73,6 @@ Proof. exact guarded_boot_resumes. Qed.
 
 Print Assumptions C03_persist_before_ack.
 Print Assumptions C03_recover_exact.
+Print Assumptions C03_acked_durable_at_every_crash.
 Print Assumptions C03_snapshot_ok.
 Print Assumptions C03_acked_survive.
